@@ -521,7 +521,7 @@ def compare(ctx, key, tr, r0, r1, haz, info, obsname, P):
         x, y = r0["vector"], r1["vector"]
         ctx.mon("values")["comparisons"] += len(x)
         scale = max(float(np.abs(x).max()), 1e-300)
-        if x.shape != y.shape or not np.all(np.abs(x - y) <= 1e-8 * scale):
+        if x.shape != y.shape or not np.all(np.abs(x - y) <= (1e-8 + P.get("vector_extra_rtol", 0.0)) * scale):
             ok_all = False
             ctx.violation(key + "/values", f"{obsname} under {tr.kind}: {x.tolist()} before, {y.tolist()} after", info(), mon)
     return ok_all
@@ -602,6 +602,8 @@ def build_tasks(ctx):
     add("open3:3", "gyration")
     add("open2:2", "gyration")
     add("open3:9", "gyration")
+    add("open3far:60", "gyration")
+    add("open2far:40", "gyration")
     add("open3:150", "pr")
     add("open2:200", "pr")
     if th:
@@ -636,6 +638,14 @@ def build_input(ctx, rng, label, par):
     else:
         d = int(parts[0][4])
         x = generated(rng, d, int(parts[1]), 1, "liquid", open_cluster=True)
+        if parts[0].endswith("far"):
+            # the same cluster far away from the coordinate origin (a droplet in a huge open system): 1e4..1e6 cluster sizes away.
+            # Coordinates then carry an absolute rounding of eps*|r|, so "to floating-point accuracy" means eps*|r|/size, set below.
+            off = rng.normal(size=d)
+            off *= 10.0 ** rng.uniform(4.5, 6.0) / np.linalg.norm(off)
+            x = map_snaps(x, lambda k, s: remake(s, positions=s.positions + off, boxbounds=s.boxbounds + off[:, None]))
+            size = float(np.ptp(x.snapshots[0].positions, axis=0).max())
+            P["vector_extra_rtol"] = 2e3 * np.finfo(float).eps * float(np.linalg.norm(off)) / max(size, 1e-9)
     s0 = x.snapshots[0]
     N = s0.nparticle
     K = int(len(np.unique(s0.particle_type)))
